@@ -16,6 +16,18 @@ Proof.
   destruct v1; intros H HY; try apply incl_nil_l.
   rewrite (H eq_refl) in HY. simpl in HY. exact HY.
 Qed.
+Lemma op_val_gv E0 DF o vs v : op_val o vs = Some v -> gv E0 DF v.
+Proof.
+  unfold op_val. destruct (raw_op o vs) as [r|]; [|discriminate].
+  destruct r; intros H; inversion H; subst; split; try exact Logic.I; discriminate.
+Qed.
+Lemma meth_val_gv E0 DF v m vs x : meth_val v m vs = Some x -> gv E0 DF x.
+Proof.
+  unfold meth_val. intros H.
+  destruct v; destruct vs as [|a0 [|a1 r0]]; try discriminate; try (destruct a0; try discriminate);
+    repeat match type of H with context [String.eqb ?p ?q] => destruct (String.eqb p q) end;
+    try discriminate; inversion H; split; try exact Logic.I; discriminate.
+Qed.
 Lemma eval_id inp n env g s vf s1 :
   eval_e inp n env (EId g) s = Ok vf s1 -> s1 = s /\ exists l, assoc g env = Some l /\ vf = nth l (fst s) VUndef.
 Proof.
@@ -43,6 +55,7 @@ Section FunsB.
     (forall L base env l s vs s', okb_l L l = true -> mem "inputs" L = false -> LocalEnv L base env -> SOK' base s ->
         eval_l inp n env l s = Ok vs s' -> postL E0 DF base l s vs s') /\
     (forall top L base env c s r s', okb_s top L c = true -> mem "inputs" L = false -> LocalEnv L base env ->
+        (top = true -> env = E0 /\ incl (ad_s c) DF) ->
         SOK' base s -> exec inp n env c s = Ok r s' -> postS E0 DF base c s r s').
 
   Lemma A_all : forall n, stA n.
@@ -151,35 +164,69 @@ Section FunsB.
         * split; [exact G1|intros C; contradiction].
       + (* ECall *)
         apply andb_true_iff in Hok. destruct Hok as [Hf Hargs].
-        destruct (get_name e) as [g|] eqn:En; [|discriminate]. apply get_name_some in En; subst e.
-        destruct (eval_e inp n env (EId g) s) as [vf s0| | |] eqn:Ef; try discriminate. simpl in H.
-        apply eval_id in Ef. destruct Ef as [-> [lg [Ag ->]]].
+        destruct e; try discriminate.
+        * (* a call through an identifier *)
+          destruct (eval_e inp n env (EId x) s) as [vf s0| | |] eqn:Ef; try discriminate. simpl in H.
+          apply eval_id in Ef. destruct Ef as [-> [lg [Ag ->]]].
+          destruct (eval_l inp n env args s) as [vs s2| | |] eqn:E2; try discriminate. simpl in H.
+          destruct (IHl L base env args s vs s2 Hargs Hi LE S E2) as [S2 [F2 [R2 Fv]]].
+          pose proof (proj1 S lg) as Gf.
+          destruct (nth lg (fst s) VUndef) as [|n0|s0|b0| |fs0|cenv ps fb| |] eqn:Evf; try discriminate.
+          simpl in Gf. destruct Gf as [-> [Okf [Hif Idf]]].
+          destruct (call_frame E0 DF base ps fb vs s2 Okf S2 Fv) as [env'' [store'' [Efr [LE'' [S'' [Low Len'']]]]]].
+          rewrite Efr in H.
+          destruct (exec inp n env'' fb (store'', snd s2)) as [c s3| | |] eqn:E3; try discriminate.
+          simpl in H. inversion H; subst. clear H.
+          assert (Ht : false = true -> env'' = E0 /\ incl (ad_s fb) DF) by discriminate.
+          destruct (IHs false _ _ env'' fb _ c s' Okf Hif LE'' Ht S'' E3) as [S3 [F3 [R3 Rv]]].
+          destruct S2 as [G2 [N2 Len2]]. destruct S3 as [G3 [N3 Len3]]. destruct F3 as [F3a F3b]. simpl in *.
+          split; [split; [exact G3|split]|].
+          -- intros l Hl. destruct (Nat.lt_ge_cases l (List.length (fst s2))) as [Hlt|Hge].
+             ++ rewrite F3a by exact Hlt. rewrite Low by exact Hlt. apply N2; exact Hl.
+             ++ apply N3; exact Hge.
+          -- lia.
+          -- split; [|split].
+             ++ eapply Frame_trans; [exact F2|]. split; simpl.
+                ** intros l Hl. rewrite F3a by lia. apply Low. lia.
+                ** lia.
+             ++ eapply RB_trans; [exact R2| |apply incl_refl|apply incl_refl].
+                intros k Hk. destruct (R3 k Hk) as [Hk'|Hk']; [left; exact Hk'|].
+                right. apply in_app_iff in Hk'. apply in_app_iff. right. destruct Hk' as [Hk'|Hk']; [apply Idf; exact Hk'|exact Hk'].
+             ++ destruct c as [|rv].
+                ** split; [exact Logic.I|discriminate].
+                ** destruct (Rv rv eq_refl) as [Grv Nrv]. split; [exact Grv|intros C; contradiction].
+        * (* a method call on a receiver that is not the inputs object *)
+          apply andb_true_iff in Hf. destruct Hf as [Hf Hm]. apply negb_true_iff in Hm.
+          simpl in Hf. apply andb_true_iff in Hf. destruct Hf as [Hr _].
+          destruct (eval_e inp n env e s) as [v1 s1| | |] eqn:E1; try discriminate. simpl in H.
+          destruct (IHe L base env e s v1 s1 Hr Hi LE S E1) as [S1 [F1 [R1 [G1 M1]]]].
+          destruct (eval_l inp n env args s1) as [vs s2| | |] eqn:E2; try discriminate. simpl in H.
+          destruct (IHl L base env args s1 vs s2 Hargs Hi LE S1 E2) as [S2 [F2 [R2 Fv]]].
+          assert (exists x, meth_val v1 f vs = Some x /\ v = x /\ s' = s2) as [x [Ex [-> ->]]].
+          { destruct v1; try discriminate; (destruct (meth_val _ f vs) as [x|]; [|discriminate]);
+              inversion H; subst; exists v; auto. }
+          destruct (meth_val_gv E0 DF _ _ _ _ Ex) as [Gx Nx].
+          split; [exact S2|]. split; [eapply Frame_trans; eauto|]. split.
+          -- eapply RB_trans; [exact R1|exact R2| |]; cbn [ad_e]; inc.
+          -- split; [exact Gx|intros C; contradiction].
+      + (* EOp *)
         destruct (eval_l inp n env args s) as [vs s2| | |] eqn:E2; try discriminate. simpl in H.
-        destruct (IHl L base env args s vs s2 Hargs Hi LE S E2) as [S2 [F2 [R2 Fv]]].
-        pose proof (proj1 S lg) as Gf.
-        destruct (nth lg (fst s) VUndef) as [|n0|s0|b0| |fs0|cenv ps fb] eqn:Evf; try discriminate.
-        simpl in Gf. destruct Gf as [-> [Okf [Hif Idf]]].
-        destruct (call_frame E0 DF base ps fb vs s2 Okf S2 Fv) as [env'' [store'' [Efr [LE'' [S'' [Low Len'']]]]]].
-        rewrite Efr in H.
-        destruct (exec inp n env'' fb (store'', snd s2)) as [c s3| | |] eqn:E3; try discriminate.
-        simpl in H. inversion H; subst. clear H.
-        destruct (IHs false _ _ env'' fb _ c s' Okf Hif LE'' S'' E3) as [S3 [F3 [R3 Rv]]].
-        destruct S2 as [G2 [N2 Len2]]. destruct S3 as [G3 [N3 Len3]]. destruct F3 as [F3a F3b]. simpl in *.
-        split; [split; [exact G3|split]|].
-        * intros l Hl. destruct (Nat.lt_ge_cases l (List.length (fst s2))) as [Hlt|Hge].
-          -- rewrite F3a by exact Hlt. rewrite Low by exact Hlt. apply N2; exact Hl.
-          -- apply N3; exact Hge.
-        * lia.
-        * split; [|split].
-          -- eapply Frame_trans; [exact F2|]. split; simpl.
-             ++ intros l Hl. rewrite F3a by lia. apply Low. lia.
-             ++ lia.
-          -- eapply RB_trans; [exact R2| |apply incl_refl|apply incl_refl].
-             intros k Hk. destruct (R3 k Hk) as [Hk'|Hk']; [left; exact Hk'|].
-             right. apply in_app_iff in Hk'. apply in_app_iff. right. destruct Hk' as [Hk'|Hk']; [apply Idf; exact Hk'|exact Hk'].
-          -- destruct c as [|rv].
-             ++ split; [exact Logic.I|discriminate].
-             ++ destruct (Rv rv eq_refl) as [Grv Nrv]. split; [exact Grv|intros C; contradiction].
+        destruct (IHl L base env args s vs s2 Hok Hi LE S E2) as [S2 [F2 [R2 Fv]]].
+        destruct (op_val o vs) as [w|] eqn:Eo; [|discriminate]. inversion H; subst.
+        destruct (op_val_gv E0 DF _ _ _ Eo) as [Gw Nw].
+        split; [exact S2|]. split; [exact F2|]. split; [exact R2|]. split; [exact Gw|intros C; contradiction].
+      + (* ELogic *)
+        apply andb_true_iff in Hok. destruct Hok as [Ha Hb].
+        destruct (eval_e inp n env e1 s) as [va s1| | |] eqn:E1; try discriminate. simpl in H.
+        destruct (IHe L base env e1 s va s1 Ha Hi LE S E1) as [S1 [F1 [R1 [G1 M1]]]].
+        destruct (if isand then truthy va else negb (truthy va)).
+        * destruct (IHe L base env e2 s1 v s' Hb Hi LE S1 H) as [S2 [F2 [R2 [G2 M2]]]].
+          split; [exact S2|]. split; [eapply Frame_trans; eauto|]. split.
+          -- eapply RB_trans; [exact R1|exact R2| |]; simpl; inc.
+          -- split; [exact G2|]. intros C. simpl. rewrite (M2 C). apply orb_true_r.
+        * inversion H; subst. split; [exact S1|]. split; [exact F1|]. split.
+          -- eapply RB_weaken; [exact R1|]. simpl; inc.
+          -- split; [exact G1|]. intros C. simpl. rewrite (M1 C). reflexivity.
     - (* argument lists *)
       intros L base env l s vs s' Hok Hi LE S H.
       destruct l; simpl in Hok; simpl in H.
@@ -195,14 +242,18 @@ Section FunsB.
         * eapply RB_trans; [exact R1|exact R2| |]; simpl; inc.
         * constructor; [|exact Fv]. split; [exact G1|]. intros C; apply M1 in C; congruence.
     - (* statements *)
-      intros top L base env c s r s' Hok Hi LE S H.
-      destruct c as [|c1 c2|x|x e|e|e|cc c1 c2|fn ps body]; simpl in Hok; simpl in H.
+      intros top L base env c s r s' Hok Hi LE HT S H.
+      destruct c as [|c1 c2|x|x e|e|e|cc c1 c2|fn ps body|fx fps fbody|fi fc fu fb]; simpl in Hok; simpl in H.
       + inversion H; subst. split; [exact S|]. split; [apply Frame_refl|]. split; [apply RB_refl|]. intros v C; discriminate.
       + apply andb_true_iff in Hok. destruct Hok as [Ha Hb].
         destruct (exec inp n env c1 s) as [r1 s1| | |] eqn:E1; try discriminate. simpl in H.
-        destruct (IHs top L base env c1 s r1 s1 Ha Hi LE S E1) as [S1 [F1 [R1 V1]]].
+        assert (HT1 : top = true -> env = E0 /\ incl (ad_s c1) DF).
+        { intros Et. destruct (HT Et) as [X Y]. split; [exact X|]. intros z Hz. apply Y. simpl. apply in_app_iff. left; exact Hz. }
+        assert (HT2 : top = true -> env = E0 /\ incl (ad_s c2) DF).
+        { intros Et. destruct (HT Et) as [X Y]. split; [exact X|]. intros z Hz. apply Y. simpl. apply in_app_iff. right; exact Hz. }
+        destruct (IHs top L base env c1 s r1 s1 Ha Hi LE HT1 S E1) as [S1 [F1 [R1 V1]]].
         destruct r1.
-        * destruct (IHs top L base env c2 s1 r s' Hb Hi LE S1 H) as [S2 [F2 [R2 V2]]].
+        * destruct (IHs top L base env c2 s1 r s' Hb Hi LE HT2 S1 H) as [S2 [F2 [R2 V2]]].
           split; [exact S2|]. split; [eapply Frame_trans; eauto|]. split; [|exact V2].
           eapply RB_trans; [exact R1|exact R2| |]; simpl; inc.
         * inversion H; subst. split; [exact S1|]. split; [exact F1|]. split; [|exact V1].
@@ -228,13 +279,55 @@ Section FunsB.
       + apply andb_true_iff in Hok. destruct Hok as [Hok Hb]. apply andb_true_iff in Hok. destruct Hok as [Hc Ha].
         destruct (eval_e inp n env cc s) as [vc s1| | |] eqn:E1; try discriminate. simpl in H.
         destruct (IHe L base env cc s vc s1 Hc Hi LE S E1) as [S1 [F1 [R1 _]]].
+        assert (HF : forall c0, false = true -> env = E0 /\ incl (ad_s c0) DF) by (intros; discriminate).
         destruct (truthy vc).
-        * destruct (IHs false L base env c1 s1 r s' Ha Hi LE S1 H) as [S2 [F2 [R2 V2]]].
+        * destruct (IHs false L base env c1 s1 r s' Ha Hi LE (HF _) S1 H) as [S2 [F2 [R2 V2]]].
           split; [exact S2|]. split; [eapply Frame_trans; eauto|]. split; [|exact V2].
           eapply RB_trans; [exact R1|exact R2| |]; simpl; inc.
-        * destruct (IHs false L base env c2 s1 r s' Hb Hi LE S1 H) as [S2 [F2 [R2 V2]]].
+        * destruct (IHs false L base env c2 s1 r s' Hb Hi LE (HF _) S1 H) as [S2 [F2 [R2 V2]]].
           split; [exact S2|]. split; [eapply Frame_trans; eauto|]. split; [|exact V2].
           eapply RB_trans; [exact R1|exact R2| |]; simpl; inc.
       + inversion H; subst. split; [exact S|]. split; [apply Frame_refl|]. split; [apply RB_refl|]. intros v C; discriminate.
+      + (* SFunE: var x = function(ps) { body } at the top level: the closure captures the outermost frame *)
+        apply andb_true_iff in Hok. destruct Hok as [Hok Hni]. apply andb_true_iff in Hok. destruct Hok as [Hok Hb].
+        apply andb_true_iff in Hok. destruct Hok as [Htop Hx]. subst top. apply negb_true_iff in Hni.
+        destruct (HT eq_refl) as [-> Hd].
+        destruct (assoc fx E0) as [l|] eqn:Ax; [|discriminate]. inversion H; subst. clear H.
+        assert (Gc : gv E0 DF (VClos E0 fps fbody)).
+        { split; [|discriminate]. simpl. repeat split; assumption. }
+        destruct (store_local E0 DF base s l _ S (LE fx l Hx Ax) Gc) as [S' F'].
+        split; [exact S'|]. split; [exact F'|]. split; [|intros v C; discriminate].
+        eapply RB_snd; [|apply RB_refl]. reflexivity.
+      + (* SFor *)
+        apply andb_true_iff in Hok. destruct Hok as [Hok Hbd]. apply andb_true_iff in Hok. destruct Hok as [Hok Hu].
+        apply andb_true_iff in Hok. destruct Hok as [Hin Hc].
+        assert (HF : forall c0, false = true -> env = E0 /\ incl (ad_s c0) DF) by (intros; discriminate).
+        destruct (exec inp n env fi s) as [r0 s0| | |] eqn:E0'; try discriminate. simpl in H.
+        destruct (IHs false L base env fi s r0 s0 Hin Hi LE (HF _) S E0') as [S0 [F0 [R0 V0]]].
+        destruct r0 as [|rv0].
+        2:{ inversion H; subst. split; [exact S0|]. split; [exact F0|]. split; [|exact V0].
+            eapply RB_weaken; [exact R0|]. simpl; inc. }
+        destruct (eval_e inp n env fc s0) as [vc s1| | |] eqn:E1; try discriminate. simpl in H.
+        destruct (IHe L base env fc s0 vc s1 Hc Hi LE S0 E1) as [S1 [F1 [R1 _]]].
+        assert (R01 : RB s s1 (ad_s (SFor fi fc fu fb) ++ DF)).
+        { eapply RB_trans; [exact R0|exact R1| |]; simpl; inc. }
+        destruct (truthy vc).
+        2:{ inversion H; subst. split; [exact S1|]. split; [eapply Frame_trans; eauto|]. split; [exact R01|].
+            intros v C; discriminate. }
+        destruct (exec inp n env fb s1) as [r2 s2| | |] eqn:E2; try discriminate. simpl in H.
+        destruct (IHs false L base env fb s1 r2 s2 Hbd Hi LE (HF _) S1 E2) as [S2 [F2 [R2 V2]]].
+        assert (R02 : RB s s2 (ad_s (SFor fi fc fu fb) ++ DF)).
+        { eapply RB_trans; [exact R01|exact R2|apply incl_refl|]; simpl; inc. }
+        destruct r2 as [|rv2].
+        2:{ inversion H; subst. split; [exact S2|]. split; [eapply Frame_trans; [exact F0|eapply Frame_trans; eauto]|].
+            split; [exact R02|exact V2]. }
+        destruct (eval_e inp n env fu s2) as [vu s3| | |] eqn:E3; try discriminate. simpl in H.
+        destruct (IHe L base env fu s2 vu s3 Hu Hi LE S2 E3) as [S3 [F3 [R3 _]]].
+        assert (Hok' : okb_s false L (SFor SSkip fc fu fb) = true) by (simpl; rewrite Hc, Hu, Hbd; reflexivity).
+        destruct (IHs false L base env (SFor SSkip fc fu fb) s3 r s' Hok' Hi LE (HF _) S3 H) as [S4 [F4 [R4 V4]]].
+        split; [exact S4|].
+        split; [eapply Frame_trans; [exact F0|eapply Frame_trans; [exact F1|eapply Frame_trans; [exact F2|eapply Frame_trans; eauto]]]|].
+        split; [|exact V4].
+        eapply RB_trans; [eapply RB_trans; [exact R02|exact R3|apply incl_refl|]|exact R4|apply incl_refl|]; simpl; inc.
   Qed.
 End FunsB.
